@@ -233,7 +233,7 @@ def dispatch(args):
     if what == "digests":
         from . import selftest
         eng, tasks = _engine_tasks(args.what_check, args)
-        if args.what_check == "C12":
+        if args.what_check == "C12" and os.environ.get("VERIF_C12_WARM", "0") == "1":
             warm_up()
         per = driver.run_digests(eng, tasks, args.workers)
         print(f"DIGESTS {selftest.batch_digest(per)} n={len(per)} errors={sum(1 for d in per if str(d).startswith('ERR'))}")
@@ -242,8 +242,8 @@ def dispatch(args):
         eng = {"C12": "schedsim", "C11": "histsim", "C20": "histsim", "C09": "bussim"}[what]
         import importlib
         engm = importlib.import_module("vsim." + eng)
-        if what == "C12":
-            warm_up()      # C11/C20 start cold on purpose: see DESIGN 13.2 ("cold images for histories")
+        if what == "C12" and os.environ.get("VERIF_C12_WARM", "0") == "1":
+            warm_up()      # all checks start cold on purpose: see DESIGN 13.2 ("cold images")
         if args.replay:
             return driver.replay_file(engm, args.replay)
         engm, tasks = _engine_tasks(what, args)
